@@ -22,7 +22,7 @@ RULE = (
     "history = list of unit kinds (SH, SH', PIC, F0, FS(cnt,start), PAD, AUX, EOS, FOREIGN) with picture numbers and optional "
     "parse-offset perturbations; strata: exhaustive (all histories SH.u1..uL over the family alphabet, correct offsets, "
     "consecutive numbers), model-guided random walks (long accepted histories), single-edit neighbours of accepted histories, "
-    "number/offset perturbation patterns; distinct = distinct (family, history) ; histories rejected at their first unit are trivial"
+    "number/offset perturbation patterns, fragment (x, y) offset patterns incl. wrong offsets with the right raster index; distinct = distinct (family, history) ; histories rejected at their first unit are trivial"
 )
 ASSUMPTIONS = [
     "only accept/reject is compared, never which error",
@@ -206,18 +206,37 @@ def cases(spec, ctx):
             hs.append([dict(x) for x in hist] + [dict(x) for x in h2])
         yield {"family": name, "hist_batch": hs, "stratum": "guided+neighbours"}
         done += len(hs)
+        # fragment offset patterns: every slice-carrying fragment of the accepted walk gets each of a list of
+        # wrong (x, y) offsets, including ones with the same raster index (x beyond the row, y lowered)
+        fx = []
+        for i, it in enumerate(hist):
+            if it["k"].startswith("FS:"):
+                start = int(it["k"].split(":")[2])
+                x, y = start % fam.sx, start // fam.sx
+                alts = [(x + fam.sx, y - 1), (x + fam.sx * y, 0), (x - fam.sx, y + 1), (y, x), (x + 1, y), (x, y + 1), (x, y)]
+                for ax, ay in alts:
+                    if ax < 0 or ay < 0:
+                        continue
+                    h = [dict(v) for v in hist]
+                    h[i]["fxy"] = [ax, ay]
+                    fx.append(h)
+        if fx:
+            rng.shuffle(fx)
+            fx = fx[:10]
+            yield {"family": name, "hist_batch": fx, "stratum": "fragment-offsets"}
+            done += len(fx)
 
 
 def run_history(fam, m, hist, stratum, ctx):
     data, ab = U.assemble(fam, hist)
     exp, rule = S.judge(ab, m)
     v = vc2util.validate(data, keep_pictures=False)
-    key = jsonx.key_hash([fam.name, [(h["k"], h.get("pn"), h.get("off"), h.get("offv")) for h in hist]])
+    key = jsonx.key_hash([fam.name, [(h["k"], h.get("pn"), h.get("off"), h.get("offv"), h.get("fxy")) for h in hist]])
     trivial = rule == "first-unit-not-sequence-header"
     ctx.seen(key, nontrivial=not trivial)
     ctx.count("histories:" + stratum)
     case = {"family": fam.name, "hist_batch": [hist], "stratum": stratum}
-    desc = " ".join(h["k"] + ("#%d" % h["pn"] if h.get("pn") is not None else "") + ("!" + h["off"] if h.get("off") else "") for h in hist)
+    desc = " ".join(h["k"] + ("#%d" % h["pn"] if h.get("pn") is not None else "") + ("!" + h["off"] if h.get("off") else "") + ("@%d,%d" % tuple(h["fxy"]) if h.get("fxy") else "") for h in hist)
     if v.kind == "crash":
         site = (v.site or "?").rsplit(":", 1)[0]
         sig = "validator-crash:%s:%s" % (site.split(":")[-1], v.exc_class)
